@@ -288,6 +288,66 @@ pub fn ctrl_dec_body(with_mt: bool, reencode: bool) {
     std::mem::forget(res);
 }
 
+/// Control message whose body ends with `k` (1–5) octets too few to hold an
+/// AVP header, followed by six octets of the next message.  All of them
+/// symbolic.  The leftover octets hold no AVP (a record needs six octets), so
+/// the message is the ZLB / Message-Type-only message; the next message's
+/// octets must not be looked at — however they read as an AVP header when
+/// glued to the leftover octets — and must stay in the reader.
+pub fn ctrl_tail_body(with_mt: bool, k: usize) {
+    let (tid, sid, ns, nr): (u16, u16, u16, u16) = (nd::any(), nd::any(), nd::any(), nd::any());
+    let sv = mk_spec(0, 2);
+    let body = if with_mt { 8 } else { 0 };
+    let total = 12 + body + k;
+    let mut buf = [0u8; 32];
+    buf[0] = 0x13;
+    buf[1] = 0x20;
+    buf[3] = total as u8;
+    buf[4] = (tid >> 8) as u8;
+    buf[5] = tid as u8;
+    buf[6] = (sid >> 8) as u8;
+    buf[7] = sid as u8;
+    buf[8] = (ns >> 8) as u8;
+    buf[9] = ns as u8;
+    buf[10] = (nr >> 8) as u8;
+    buf[11] = nr as u8;
+    if with_mt {
+        buf[12] = 0x01;
+        buf[13] = 8;
+        if let sa::SV::MessageType(c) = sv.v {
+            buf[18] = (c >> 8) as u8;
+            buf[19] = c as u8;
+        }
+    }
+    let tail: [u8; 5] = nd::any();
+    let next: [u8; 6] = nd::any();
+    let mut i = 0;
+    while i < k {
+        buf[12 + body + i] = tail[i];
+        i += 1;
+    }
+    i = 0;
+    while i < 6 {
+        buf[total + i] = next[i];
+        i += 1;
+    }
+    let mut r = SliceReader::from(&buf[..total + 6]);
+    let res: Res = Message::try_read_validate(&mut r, real_opts(STRICT));
+    match &res {
+        Ok(Message::Control(c)) => {
+            check!(c.tunnel_id == tid && c.session_id == sid && c.ns == ns && c.nr == nr && c.length as usize == total, "C05,C08: header fields of a control message do not depend on the octets after its declared end");
+            check!(c.avps.len() == if with_mt { 1 } else { 0 }, "C05,C08,C15: fewer than six octets left in the body hold no AVP; octets after the declared end are never parsed as part of one");
+            if with_mt && c.avps.len() == 1 {
+                check!(sa::same(&c.avps[0], &sv), "C05,C08: the AVP inside the declared length decodes to its specified value whatever follows");
+            }
+        }
+        _ => check!(false, "C05,C08,C15: a control message whose body ends with 1-5 spare octets is accepted whatever follows its declared end"),
+    }
+    check!(r.len() == 6, "C08: decoding a control message consumes exactly Length octets; the next message's octets stay in the reader");
+    witness!(res.is_ok(), "decoded");
+    std::mem::forget(res);
+}
+
 /// Two or three AVPs of given kinds written back to back into one writer:
 /// the output is the concatenation of the specified records (C09), and the
 /// record walker returns them one per record, in order (C08, C03).
@@ -411,6 +471,22 @@ pub fn ctrl_dec_k0() {
 //@ props=C03,C08,C10,C15 tier=quick unwind=32 witness=decoded cap=1500
 pub fn ctrl_dec_mt() {
     ctrl_dec_body(true, false)
+}
+//@ props=C05,C08,C15 tier=quick unwind=24 witness=decoded
+pub fn ctrl_tail_k0_1() {
+    ctrl_tail_body(false, 1)
+}
+//@ props=C05,C08,C15 tier=quick unwind=24 witness=decoded
+pub fn ctrl_tail_k0_5() {
+    ctrl_tail_body(false, 5)
+}
+//@ props=C05,C08,C15 tier=thorough unwind=24 witness=decoded
+pub fn ctrl_tail_k0_3() {
+    ctrl_tail_body(false, 3)
+}
+//@ props=C05,C08,C15 tier=quick unwind=32 witness=decoded cap=1500
+pub fn ctrl_tail_mt_2() {
+    ctrl_tail_body(true, 2)
 }
 //@ props=C07,C09 tier=quick unwind=8 witness=completed
 pub fn ctrl_len_k0() {
@@ -580,6 +656,10 @@ pub const HARNESSES: &[(&str, fn())] = &[
     ("ctrl_enc_mt", ctrl_enc_mt),
     ("ctrl_dec_k0", ctrl_dec_k0),
     ("ctrl_dec_mt", ctrl_dec_mt),
+    ("ctrl_tail_k0_1", ctrl_tail_k0_1),
+    ("ctrl_tail_k0_5", ctrl_tail_k0_5),
+    ("ctrl_tail_k0_3", ctrl_tail_k0_3),
+    ("ctrl_tail_mt_2", ctrl_tail_mt_2),
     ("ctrl_len_k0", ctrl_len_k0),
     ("ctrl_len_mt", ctrl_len_mt),
     ("avp_len_1022", avp_len_1022),
